@@ -1,6 +1,7 @@
 import AcraModel.Envelope.Detector
 import AcraModel.Envelope.ContainerLemmas
 import AcraModel.Envelope.BlockLemmas
+import AcraModel.Envelope.ProtectLemmas
 /-!
 # C01 — protect-then-reveal returns the original bytes for the owning client
 
@@ -145,5 +146,101 @@ theorem block_roundtrip_commit (c : CryptoOps) (hs : SealLaws c) (hcm : SealComm
     obtain ⟨n, _, hn⟩ := hs.enc_of_dec _ _ _ _ hd
     obtain ⟨_, _, hdd⟩ := hcm.enc_inj _ _ _ _ _ _ _ _ _ hn h2
     exact Or.inr (by rw [hdd])
+
+/-! ## the registry handler: `protect` (EncryptWithClientID) and `reveal` (Process) -/
+
+/-- Input that already is a protected value – an envelope of the requested kind or a serialized
+container the registry recognises – is returned unchanged by `protect`, whatever the keys and the
+random stream: it is never wrapped a second time. -/
+theorem protect_passthrough (c : CryptoOps) (kv : KeyView) (k : Kind) (d rnd : Bytes)
+    (h : matchKind k d = true ∨ registryMatch d = true) : protect c kv k d rnd = .ok d :=
+  c01_protect_of_match c kv k d rnd h
+
+/-- If `protect` returned something different from its input, the input was not recognised as
+protected (so the handler of kind `k` really ran). -/
+theorem protect_ne_input (c : CryptoOps) (kv : KeyView) (k : Kind) (m rnd p : Bytes)
+    (hp : protect c kv k m rnd = .ok p) (hne : p ≠ m) : matchKind k m = false ∧ registryMatch m = false := by
+  refine ⟨?_, ?_⟩
+  · cases h : matchKind k m with
+    | false => rfl
+    | true => rw [c01_protect_of_match c kv k m rnd (Or.inl h)] at hp; cases hp; exact absurd rfl hne
+  · cases h : registryMatch m with
+    | false => rfl
+    | true => rw [c01_protect_of_match c kv k m rnd (Or.inr h)] at hp; cases hp; exact absurd rfl hne
+
+/-- A value protected as AcraBlock is never wrapped a second time: whatever `protect` produced for
+`m` (if it is not `m` itself, i.e. `m` was not already protected) is passed through unchanged by every
+further `protect`, for either envelope kind, any client's keys and any random stream. No crypto law is
+needed; the length hypotheses are those of `block_roundtrip` (`p.length < 2^63` is the container's
+length, it follows from `SealLen c` and `m.length < 2^32`). -/
+theorem protect_idempotent_block (c : CryptoOps) (kv : KeyView) (key m rnd p : Bytes)
+    (hW : kv.sym = some key) (hkid : (keyId c key []).length = 2) (hplen : p.length < 2^63)
+    (hp : protect c kv .block m rnd = .ok p) (hne : p ≠ m) :
+    ∀ (k' : Kind) (kv' : KeyView) (rnd' : Bytes), protect c kv' k' p rnd' = .ok p := by
+  obtain ⟨hnm, hnr⟩ := protect_ne_input c kv .block m rnd p hp hne
+  obtain ⟨e, he, hne', rfl⟩ := c01_protect_ok hp hnm hnr
+  obtain ⟨key', hk', hcb⟩ := c01_encryptKind_block he hnm
+  rw [hW] at hk'; cases hk'
+  obtain ⟨encData, encKey, _, _, rfl⟩ := c01_createBlock_ok hcb
+  rw [c01_serBytes_length] at hplen
+  intro k' kv' rnd'
+  apply c01_protect_of_match
+  right
+  have hx := c01_extractBlock_build (keyId c key []) encKey encData [] hkid (by omega)
+  rw [List.append_nil] at hx
+  have := c01_registryMatch_ser .block _ [] hne' (by omega) (by simp [matchKind, hx, Out.isOk])
+  simpa using this
+
+/-- Protect-then-reveal for the AcraBlock kind through the registry handler. The writer's key view
+`kvW` and the reader's `kvR` may differ in everything, as long as the reader's list of symmetric keys
+contains the writer's current key somewhere – in particular a value written before any number of key
+rotations stays readable. Earlier keys in the reader's list must not accidentally unseal the wrapped
+data key when their 2-byte id collides (see `block_roundtrip`; `reveal_protect_block_commit` removes
+this hypothesis under key commitment). The context is empty, as in the handlers. -/
+theorem reveal_protect_block (c : CryptoOps) (hs : SealLaws c) (kvW kvR : KeyView) (key m rnd p : Bytes)
+    (pre post : List Bytes)
+    (hkid : (keyId c key []).length = 2)
+    (hW : kvW.sym = some key) (hR : kvR.syms = some (pre ++ key :: post))
+    (hpre : ∀ k' ∈ pre, ∀ encKey, c.enc key [] (rnd.take 32) ((rnd.drop 44).take 12) = some encKey →
+      keyId c k' [] = keyId c key [] → c.dec k' [] encKey = none)
+    (hEncKey : ∀ encKey, c.enc key [] (rnd.take 32) ((rnd.drop 44).take 12) = some encKey → encKey.length < 65536)
+    (hplen : p.length < 2^63)
+    (hnm : matchKind .block m = false) (hnr : registryMatch m = false)
+    (hp : protect c kvW .block m rnd = .ok p) : reveal c kvR p = .ok m := by
+  obtain ⟨e, he, hne', rfl⟩ := c01_protect_ok hp hnm hnr
+  obtain ⟨key', hk', hcb⟩ := c01_encryptKind_block he hnm
+  rw [hW] at hk'; cases hk'
+  rw [c01_serBytes_length] at hplen
+  obtain ⟨hx, hd⟩ := block_roundtrip c hs key [] m rnd e pre post hkid hEncKey (by omega) hcb hpre
+  have hx0 := hx []
+  rw [List.append_nil] at hx0
+  have := c01_process_ser c kvR .block e [] hne' (by omega) (by simp [matchKind, hx0, Out.isOk])
+  rw [List.append_nil] at this
+  unfold reveal
+  rw [this]
+  exact c01_decryptKind_block c kvR e m _ hx0 hR hd
+
+/-- Protect-then-reveal for AcraBlocks under key commitment: the reader's key list only has to
+contain the writer's key; nothing is assumed about the other keys. -/
+theorem reveal_protect_block_commit (c : CryptoOps) (hs : SealLaws c) (hcm : SealCommit c) (kvW kvR : KeyView)
+    (key m rnd p : Bytes) (keys : List Bytes)
+    (hkid : (keyId c key []).length = 2)
+    (hW : kvW.sym = some key) (hR : kvR.syms = some keys) (hmem : key ∈ keys)
+    (hEncKey : ∀ encKey, c.enc key [] (rnd.take 32) ((rnd.drop 44).take 12) = some encKey → encKey.length < 65536)
+    (hplen : p.length < 2^63)
+    (hnm : matchKind .block m = false) (hnr : registryMatch m = false)
+    (hp : protect c kvW .block m rnd = .ok p) : reveal c kvR p = .ok m := by
+  obtain ⟨e, he, hne', rfl⟩ := c01_protect_ok hp hnm hnr
+  obtain ⟨key', hk', hcb⟩ := c01_encryptKind_block he hnm
+  rw [hW] at hk'; cases hk'
+  rw [c01_serBytes_length] at hplen
+  obtain ⟨hx, hd⟩ := block_roundtrip_commit c hs hcm key [] m rnd e keys hkid hEncKey (by omega) hcb hmem
+  have hx0 := hx []
+  rw [List.append_nil] at hx0
+  have := c01_process_ser c kvR .block e [] hne' (by omega) (by simp [matchKind, hx0, Out.isOk])
+  rw [List.append_nil] at this
+  unfold reveal
+  rw [this]
+  exact c01_decryptKind_block c kvR e m _ hx0 hR hd
 
 end AcraModel.Props.C01
